@@ -323,7 +323,7 @@ func firstPassIsMax(phi *ssa.Phi) bool {
 func init() {
 	register(&propInfo{
 		ID:          "C20",
-		Explanation: "Decides crash-freedom and tag-preservation clauses of plenctag: (B.index.ast) BOUND over every function of cmd/plenctag proves each index into a list taken from the parsed file (f.Names[0], …) is guarded by a length test; (G.preserve) every assignment to f.Tag.Value and the tags.Set call are dominated by the branch where tags.Get(\"plenc\") reports the key absent, and the only key ever set is the constant \"plenc\"; (G.twopass) the index handed to a new tag is the running value + 1, that value is carried to the next field (pairwise distinct, strictly increasing) and the running value starts from the maximum computed by a completed first loop whose variable is only ever replaced under new > max; (G.multiname) the point where a new index is rendered is reached only when len(f.Names) <= 1 - one tag serves every name of a declaration.",
+		Explanation: "Decides crash-freedom and tag-preservation clauses of plenctag: (B.index.ast) BOUND over every function of cmd/plenctag proves each index into a list taken from the parsed file (f.Names[0], …) is guarded by a length test; (G.preserve) every assignment to f.Tag.Value and the tags.Set call are dominated by the branch where tags.Get(\"plenc\") reports the key absent, and the only key ever set is the constant \"plenc\"; (G.twopass) the index handed to a new tag is the running value + 1, that value is carried to the next field (pairwise distinct, strictly increasing) and the running value starts from the maximum computed by a completed first loop whose variable is only ever replaced under new > max; (G.multiname) the point where a new index is rendered is reached only when len(f.Names) <= 1 - one tag serves every name of a declaration; (G.skipreason) every branch of the tagging loop that leaves a field without a new tag depends only on the documented reasons - unexported, unparsable tag, a plenc key in the PARSED tag, several names, no index left - not on the raw tag text.",
 		NotDecided:  "gofmt-formatted output, compilability, idempotence, the multi-name field (X, Y int gets one tag for two fields) - behaviours of the tool over all Go files with no structural clause that separates a correct strategy from the current one.",
 		Assumptions: []string{"A1", "A5"},
 		Run: func(c *Ctx) {
@@ -336,6 +336,7 @@ func init() {
 			ruleTagRound6b(c)
 			ruleTagRound7(c)
 			ruleTagRound8(c)
+			ruleTagRound14(c)
 		},
 	})
 }
